@@ -34,7 +34,7 @@ def canon_term(t):
     """comparison form of an encoder term: drop cfg markers, panics (asserts) and helper wrappers"""
     its = []
     for e in items(t):
-        if e[0] in ('CFG',):
+        if e[0] in ('CFG', 'ALLOC', 'OWN', 'SINKW'):
             continue
         its.append(e)
     return sym.tstr(cat(*its))
@@ -86,7 +86,7 @@ def check_defaults(out, facts):
             out.fail('R07.2', 'Encode::%s default [%s]' % (m, cfg), 'default method not found (anchor missing)', '-')
             continue
         t, v, ev = wire.infer_encoder_method(facts, d)
-        its = [e for e in items(t) if e[0] != 'CFG']
+        its = [e for e in items(t) if e[0] not in ('CFG', 'ALLOC', 'OWN', 'SINKW')]
         ok = len(its) == 1 and its[0][0] == 'enc' and its[0][1] == 'Self' and strip(its[0][2]) == ('self',)
         out.ob('R07.2', 'Encode::%s default [%s]' % (m, cfg), ok, 'default %s is no longer defined through the other entry points: %s' % (m, sym.tstr(t)), d['loc'],
                sample={'term': sym.tstr(t)})
